@@ -333,6 +333,7 @@ func runC11(e *Engine, r *Report) {
 	ruleLastAppliedContiguous(e, r)
 	ruleTaskQueueFIFO(e, r)
 	ruleJobRegistered(e, r)
+	ruleJobUnregistered(e, r)
 }
 
 func lastN(ss []string, n int) string {
